@@ -12,6 +12,8 @@ def plan(quick):
         {"proto": "frost-refresh", "n": 3, "t": 1, "kinds": ["fault"], "limit": 300 if quick else None},
         {"proto": "taproot-keygen", "n": 3, "t": 1, "kinds": ["fault"], "limit": 200 if quick else None},
         {"proto": "toy:b,bm,b", "n": 3, "t": 1, "kinds": ["fault"], "limit": 200 if quick else None},
+        {"proto": "doerner-keygen", "n": 2, "t": 1, "kinds": ["fault"], "limit": 250 if quick else None},
+        {"proto": "doerner-sign", "n": 2, "t": 1, "kinds": ["fault"], "limit": 250 if quick else None},
         {"proto": "cmp-sign", "n": 3, "t": 2, "kinds": ["fault"], "limit": 24 if quick else 400},
         {"proto": "cmp-keygen", "n": 3, "t": 1, "kinds": ["fault"], "limit": 6 if quick else 120},
     ]
@@ -23,6 +25,7 @@ def plan(quick):
             {"proto": "cmp-presign", "n": 3, "t": 2, "kinds": ["fault"], "limit": 200},
             {"proto": "cmp-presign-online", "n": 3, "t": 2, "kinds": ["fault"], "limit": 60},
             {"proto": "taproot-refresh", "n": 3, "t": 1, "kinds": ["fault"], "limit": 400},
+            {"proto": "doerner-refresh", "n": 2, "t": 1, "kinds": ["fault"]},
         ]
     return p
 
